@@ -12,7 +12,10 @@ WT = "/tmp/seedtest"
 
 
 def sh(*a, **k):
-    return subprocess.run(a, capture_output=True, text=True, **k)
+    try:
+        return subprocess.run(a, capture_output=True, text=True, timeout=600, **k)
+    except subprocess.TimeoutExpired:
+        return subprocess.CompletedProcess(a, 2, "ANALYSIS-ERROR timeout", "")
 
 
 def main(patches):
